@@ -590,6 +590,30 @@ func (r *Runner) doStep(st Step) bool {
 			return false
 		}
 		r.cnt("gauges.final_checks", 1)
+		// Bounded catch-up: after the drain (directed merger + persister
+		// rounds, no fault injected) the lower level holds every batch -
+		// also the ones no gauge could count (creation of an empty child,
+		// deletion of a child).
+		if e.Cfg.Backing == "store" && e.Store != nil && e.FS == nil {
+			var tree *model.Coll
+			sn, err := e.Store.Snapshot()
+			if err == nil && sn != nil {
+				err = Safe(func() error { var err error; tree, err = ReadTree(sn); return err })
+				sn.Close()
+				if err == nil {
+					if m := DiffTree(tree, e.World.Cur(), nil); m != nil {
+						where := "top"
+						if len(m.Path) > 0 {
+							where = "child"
+						}
+						r.viol("gauges", "drained-but-not-in-lower-level/"+where, m.Kind,
+							fmt.Sprintf("after draining (gauges zero) the store's snapshot still differs from the reference content of all %d batches: %s", e.World.N(), m))
+						return false
+					}
+					r.cnt("gauges.final_store_equal", 1)
+				}
+			}
+		}
 	default:
 		r.viol("harness", "unknown-step", st.K, "")
 		return false
